@@ -238,15 +238,35 @@ func ruleOverwrite(c *Ctx, rule string, fns []*ssa.Function) {
 			n++
 			// a direct (non-phi) use examines exactly this iteration's error; uses that are only
 			// reached through a phi see whatever the last iteration produced
+			// (a phi that merely joins branches of the same iteration — not a header of a loop that
+			// contains the call — still carries exactly this iteration's value: it is followed)
 			examinedInLoop := false
-			for _, r := range *ev.Referrers() {
-				switch r.(type) {
-				case *ssa.DebugRef, *ssa.Phi:
-				default:
-					examinedInLoop = true
+			seenV := map[ssa.Value]bool{}
+			var examined func(v ssa.Value)
+			examined = func(v ssa.Value) {
+				if seenV[v] || examinedInLoop {
+					return
+				}
+				seenV[v] = true
+				for _, r := range *v.Referrers() {
+					switch x := r.(type) {
+					case *ssa.DebugRef:
+					case *ssa.Phi:
+						carried := false
+						for _, lp := range loops {
+							if lp.Header == x.Block() && lp.Blocks[cv.Block()] {
+								carried = true
+							}
+						}
+						if !carried && l.Blocks[x.Block()] {
+							examined(x)
+						}
+					default:
+						examinedInLoop = true
+					}
 				}
 			}
-			_ = l
+			examined(ev)
 			if !hasRealReferrer(ev) {
 				continue
 			}
